@@ -42,11 +42,23 @@ def qe_header(text_from_writer, nat, ntyp):
            "K_POINTS automatic\n 2 2 2  0 0 0\n" % (nat, ntyp) + text_from_writer + "\n"
 
 
-def elk_template(cell):
+def elk_template(cell, scale=None):
+    """scale: None, a number (keyword 'scale') or three numbers (keywords 'scale1..3'): the lattice vectors are written divided by them, so
+    that the file describes the same crystal."""
     us = uniq(cell.symbols)
-    lines = ["avec"]
-    for v in cell.cell:
-        lines.append("  %.16f %.16f %.16f" % tuple(v))
+    lines = []
+    sc = [1.0, 1.0, 1.0]
+    if scale is not None:
+        if np.ndim(scale) == 0:
+            sc = [float(scale)] * 3
+            lines += ["scale", "  %.16f" % scale, ""]
+        else:
+            sc = [float(x) for x in scale]
+            for k in range(3):
+                lines += ["scale%d" % (k + 1), "  %.16f" % sc[k], ""]
+    lines.append("avec")
+    for k, v in enumerate(cell.cell):
+        lines.append("  %.16f %.16f %.16f" % tuple(np.asarray(v) / sc[k]))
     lines += ["atoms", "  %d" % len(us)]
     for s in us:
         idx = [i for i, x in enumerate(cell.symbols) if x == s]
